@@ -673,8 +673,15 @@ func (s *Server) handleTestUpstreamDNS(w http.ResponseWriter, r *http.Request) {
 
 // handleCacheClear is the handler for the POST /control/cache_clear HTTP API.
 func (s *Server) handleCacheClear(w http.ResponseWriter, _ *http.Request) {
-	s.dnsProxy.ClearCache()
-	s.conf.ClientsContainer.ClearUpstreamCache()
+	if prx := s.proxy(); prx != nil {
+		prx.ClearCache()
+	}
+
+	s.serverLock.RLock()
+	clientsContainer := s.conf.ClientsContainer
+	s.serverLock.RUnlock()
+
+	clientsContainer.ClearUpstreamCache()
 
 	_, _ = io.WriteString(w, "OK")
 }
